@@ -109,6 +109,36 @@ theorem C14_never_still_needed_listing (s' : State) (R : List Prod)
     have := C14_never_still_needed s name ver recursive dn sb s' R h p hp u hu'
     rw [← h1, ← h2]; exact this
 
+/-- **A user declared in between is seen** (histories on one `Eups` object: the model of `remove` is a function of
+the current state, it keeps no who-uses-what information from earlier commands).  If a product `d` is declared
+(`declare s d`) whose dependency listing holds `name ver`, then a checked, unforced `remove name ver` afterwards does
+not succeed — whatever was computed, refused or removed before: by `C14_refuses` it leaves the state as it is. -/
+theorem C14_not_removed_after_declare (d : Decl) (l : List Entry)
+    (hl : getDependentProducts (declare s d).db (declare s d).db.fuel ⟨d.name, some d.ver, true⟩ true false = .ok l)
+    (e : Entry) (he : e ∈ l) (hn : e.prod.name = name) (hv : e.prod.ver = some ver)
+    (hne : ¬ (d.name = name ∧ d.ver = ver)) (hdn : dn ≠ some name) :
+    (remove (declare s d) name ver recursive true false dn).1 ≠ .ok := by
+  intro hok
+  generalize hr : remove (declare s d) name ver recursive true false dn = r at hok
+  obtain ⟨o, s', R⟩ := r
+  simp only at hok
+  subst hok
+  have hmem : (⟨name, some ver, true⟩ : Prod) ∈ R := by
+    unfold remove at hr
+    exact C14_requested_is_removed _ _ _ _ _ _ _ _ _ _ hr hdn
+  have hd : d ∈ (declare s d).decls := by simp [declare]
+  exact hne (C14_never_still_needed_listing (declare s d) name ver recursive dn s' R hr ⟨name, some ver, true⟩ hmem d hd l hl
+    e he hn hv)
+
+/-- non-vacuity: `lib 1` alone in the stack; `app 1`, whose table requires `lib`, is declared; `remove lib 1` is refused -/
+example :
+    let s0 : State := { decls := [⟨Str.ofString "lib", Str.ofString "1", [], false⟩],
+                        tags := [(Str.ofString "lib", currentTag, Str.ofString "1")], dirs := [(Str.ofString "lib", Str.ofString "1")] }
+    let d : Decl := ⟨Str.ofString "app", Str.ofString "1", [⟨false, false, Str.ofString "lib", none, false, false⟩], false⟩
+    (remove s0 (Str.ofString "lib") (Str.ofString "1") false true false none).1 = .ok ∧
+    (remove (declare s0 d) (Str.ofString "lib") (Str.ofString "1") false true false none).1 = .failed .refused := by
+  decide
+
 /-- `--noCheck`: the command never refuses on the grounds that a product is in use. -/
 theorem C14_noCheck : (removeWith s uses name ver recursive false force dn).1 ≠ .failed .refused := by
   intro h
